@@ -1,4 +1,5 @@
 #!/bin/bash
+export VERIF_EVIDENCE_DIR=${VERIF_EVIDENCE_DIR:-/var/tmp/evidence_scratch}  # exploratory run: do not touch /verif/evidence
 # usage: eval_seed.sh <ID> <patch.diff> <demo.py> [tier]
 # Applies the seeded change to a scratch worktree of /repo HEAD, checks the demonstration (fails with / passes without),
 # runs the property's check against the changed tree (VERIF_REPO) and reports whether it is caught. Removes the worktree.
